@@ -11,6 +11,7 @@ import LemoModel.Merkle
 import LemoModel.Mpt
 import LemoProofs.Lemmas.Merkle
 import LemoProofs.Lemmas.Mpt
+import LemoProofs.C17Store
 namespace LemoProofs.C17
 open LemoModel.Merkle LemoProofs.MerkleLemmas
 
